@@ -396,6 +396,107 @@ func (g *Graph) boolLocalDef(e ast.Expr) (ast.Expr, int) {
 	return def, dv
 }
 
+// boolCondDef: e is a local boolean that holds its zero value (`var x bool`, `x := false`) except for one assignment
+// `x = E` made directly in the body of an `if C {` without else that stands in the block of the declaration; after that
+// if statement x is C && E. Returns that conjunction and the vertex of C (-1 when e is used before the if statement ends).
+func (g *Graph) boolCondDef(e ast.Expr) (ast.Expr, int) {
+	id, ok := ast.Unparen(e).(*ast.Ident)
+	if !ok {
+		return nil, -1
+	}
+	f := g.F
+	obj, _ := f.ObjOf(id).(*types.Var)
+	if obj == nil || obj.IsField() {
+		return nil, -1
+	}
+	if b, isB := obj.Type().Underlying().(*types.Basic); !isB || b.Info()&types.IsBoolean == 0 {
+		return nil, -1
+	}
+	var decl, set ast.Node
+	var rhs ast.Expr
+	for _, w := range Writes(f.Body, true) {
+		if f.ObjOf(w.LHS) != types.Object(obj) {
+			continue
+		}
+		zero := w.RHS == nil
+		if w.RHS != nil {
+			if v, isC := f.ConstBool(w.RHS); isC && !v {
+				zero = true
+			}
+		}
+		switch {
+		case w.Tok == token.DEFINE && zero && decl == nil:
+			decl = w.Stmt
+		case w.Tok == token.ASSIGN && w.RHS != nil && set == nil:
+			set, rhs = w.Stmt, w.RHS
+		default:
+			return nil, -1
+		}
+	}
+	if decl == nil || set == nil || f.addressTaken(obj) {
+		return nil, -1
+	}
+	if vs, isVS := decl.(*ast.ValueSpec); isVS {
+		if len(vs.Names) != 1 {
+			return nil, -1
+		}
+		if gd, ok := f.ParentOf(vs).(*ast.GenDecl); ok {
+			decl = f.ParentOf(gd) // the DeclStmt
+		}
+	}
+	body, _ := f.ParentOf(set).(*ast.BlockStmt)
+	if body == nil {
+		return nil, -1
+	}
+	ifs, _ := f.ParentOf(body).(*ast.IfStmt)
+	if ifs == nil || ifs.Body != body || ifs.Else != nil || ifs.Init != nil || f.ParentOf(ifs) != f.ParentOf(decl) {
+		return nil, -1
+	}
+	if id.Pos() < ifs.End() || !pureCond(ifs.Cond) || !pureCond(rhs) {
+		return nil, -1
+	}
+	// nothing E mentions may change between the assignment and the end of the body
+	sv := g.VertexOf(set)
+	cv := g.VertexOf(ifs.Cond)
+	if sv < 0 || cv < 0 {
+		return nil, -1
+	}
+	return &ast.BinaryExpr{X: &ast.ParenExpr{X: ifs.Cond}, Op: token.LAND, Y: &ast.ParenExpr{X: rhs}}, cv
+}
+
+// pureCond: an expression without calls (other than len/cap) and literals of functions.
+func pureCond(e ast.Expr) bool {
+	pure := true
+	ast.Inspect(e, func(x ast.Node) bool {
+		switch y := x.(type) {
+		case *ast.CallExpr:
+			if id, isID := y.Fun.(*ast.Ident); isID && (id.Name == "len" || id.Name == "cap") {
+				return true
+			}
+			pure = false
+		case *ast.FuncLit:
+			pure = false
+		}
+		return pure
+	})
+	return pure
+}
+
+// boolLocalValue: what a boolean local stands for at the use e (boolLocalDef or boolCondDef), unless something the
+// definition mentions may have been reassigned between the definition and the use at vertex ev.
+func (g *Graph) boolLocalValue(e ast.Expr, ev int) ast.Expr {
+	if def, dv := g.boolLocalDef(e); def != nil {
+		if !g.staleBetween(def, dv+1, ev) {
+			return def
+		}
+		return nil
+	}
+	if def, dv := g.boolCondDef(e); def != nil && !g.staleBetween(def, dv, ev) {
+		return def
+	}
+	return nil
+}
+
 // taglessCase: e is one of the expressions of a case clause of a switch without tag.
 func (g *Graph) taglessCase(st ast.Stmt, e ast.Expr) bool {
 	cc, _ := st.(*ast.CaseClause)
@@ -433,7 +534,7 @@ func (g *Graph) GuardsAt(v int) []Atom {
 				// a condition held in a local (`ok := a && b` … `if ok {`) stands for its definition, as long as nothing the
 				// definition mentions is reassigned in between
 				for _, a := range as {
-					if def, dv := g.boolLocalDef(a.E); def != nil && !g.staleBetween(def, dv+1, ev-1) {
+					if def := g.boolLocalValue(a.E, ev-1); def != nil {
 						var more []Atom
 						splitAtoms(def, a.Val, &more)
 						as = append(as, more...)
@@ -689,7 +790,7 @@ func evalTri(e ast.Expr, leaf func(ast.Expr) tri) tri {
 // false/true is pruned, unknown conditions follow both edges. Switch cases are presented to leaf as
 // the synthetic comparison `tag == caseExpr`. This is a predicate-abstraction dataflow over the
 // function's own CFG, not an execution.
-func (g *Graph) ReachUnder(leaf func(ast.Expr) tri, blocked func(int) bool) []bool {
+func (g *Graph) ReachUnder(leaf0 func(ast.Expr) tri, blocked func(int) bool) []bool {
 	pruned := map[[2]int]bool{}
 	for i, b := range g.C.Blocks {
 		if !b.Live || len(b.Succs) != 2 || len(b.Nodes) == 0 {
@@ -700,6 +801,23 @@ func (g *Graph) ReachUnder(leaf func(ast.Expr) tri, blocked func(int) bool) []bo
 			continue
 		}
 		ev := g.off[i] + len(b.Nodes)
+		// a boolean local the valuation says nothing about stands for its definition
+		depth := 0
+		var leaf func(ast.Expr) tri
+		leaf = func(e ast.Expr) tri {
+			if t := leaf0(e); t != triUnknown {
+				return t
+			}
+			if _, isID := ast.Unparen(e).(*ast.Ident); isID && depth < 4 {
+				if def := g.boolLocalValue(e, ev-1); def != nil {
+					depth++
+					t := evalTri(def, leaf)
+					depth--
+					return t
+				}
+			}
+			return triUnknown
+		}
 		var val tri
 		switch b.Succs[0].Kind {
 		case cfg.KindIfThen, cfg.KindForBody:
